@@ -17,6 +17,8 @@ import warnings
 RDF_TYPE = "http://www.w3.org/1999/02/22-rdf-syntax-ns#type"
 XSD = "http://www.w3.org/2001/XMLSchema#"
 LANGSTRING = "http://www.w3.org/1999/02/22-rdf-syntax-ns#langString"
+# well-formed BCP 47 tags: one, two and three subtags, digits in a subtag
+LANG_TAGS = ["en", "en", "es", "en-GB", "zh-Hant-TW", "de-CH-1996", "sr-Latn-RS", "zh-hans"]
 DEFAULT_SHAPES_NS = "http://weso.es/shapes/"
 
 SWITCHES = ["all_instances_are_compliant_mode", "keep_less_specific",
@@ -59,7 +61,7 @@ def gen_graph(r, general=True, max_nodes=6, namespaces=("http://ex.org/",)):
                     k = r.random()
                     if k < 0.35:
                         dt = r.choice(dts)
-                        o = ("L", "v%d" % r.randint(0, 9), dt) + (("en",) if dt == LANGSTRING else ())
+                        o = ("L", "v%d" % r.randint(0, 9), dt) + ((r.choice(LANG_TAGS),) if dt == LANGSTRING else ())
                     elif k < 0.5:
                         o = r.choice(untyped)
                     else:
@@ -229,7 +231,7 @@ def impl_other(ts, cfg, kind, timeout=10.0):
             os.makedirs(d, exist_ok=True)
             path = os.path.join(d, "out_%d.shex" % os.getpid())
             with open(path, "w") as f:          # the path is being reused: what it held must disappear
-                f.write("# stale content of an earlier extraction\n:Stale {\n   :p  IRI\n}\n")
+                f.write("# stale content of an earlier extraction\n:Stale {\n   :p  IRI\n}\n}}} <<<stale ]] @@\n" * 3)
             sh.shex_graph(output_file=path, acceptance_threshold=(k / m))
             with open(path, newline="") as f:
                 text = f.read()
